@@ -34,6 +34,8 @@ def main():
         wt = "/tmp/seed5-" + prop
     if name.endswith("-6"):
         wt = "/tmp/seed6-" + prop
+    if name.endswith("-7"):
+        wt = "/tmp/seed7-" + prop
     scratch = os.environ.get('VERIF_SEED_SCRATCH', '/tmp/verif-scratch-seed')
     so = os.path.join(wt, 'seed_out')
     meta = json.load(open(os.path.join(so, 'meta.json')))
